@@ -3300,7 +3300,7 @@ let rec insert key ltb0 x l = match l with
     ('a1 -> 'a2) -> ('a2 -> 'a2 -> bool) -> 'a1 list -> 'a1 list **)
 
 let sort_by key ltb0 l =
-  fold_right (insert key ltb0) [] l
+  fold_left (fun acc x -> insert key ltb0 x acc) l []
 
 (** val list_eqb : ('a1 -> 'a1 -> bool) -> 'a1 list -> 'a1 list -> bool **)
 
